@@ -35,7 +35,7 @@ CHECKS = {
     'C09': dict(level='exploration', ref='2/C09', tech='sanitizers (ASan+UBSan incl. vptr, float-cast-overflow) + crash journal + CPU watchdog + allocation cap over boundary-value calls of every registered signature',
                 text='Every registered operator signature is called with boundary values of its registered types in an ASan+UBSan build; any crash, sanitizer report, escaped C++ exception, hang or oversized allocation is a violation.',
                 note='clean sanitizer run is not memory safety; value pools are finite; LOCATION/TASK/DISPLAY/CONTROL/NetObject values cannot be constructed'),
-    'C10': dict(level='fault_enumeration', ref='2/C10', tech='fault enumeration (all truncations, single-token mutations) of front-end inputs under ASan+UBSan with CPU watchdog, result-or-diagnostic and determinism oracles; libFuzzer in thorough',
+    'C10': dict(level='fault_enumeration', ref='2/C10', tech='fault enumeration (all truncations, single-token mutations) of front-end inputs under ASan+UBSan with CPU watchdog, result-or-diagnostic and determinism oracles, CPU-time scaling ratio per input family',
                 text='Every prefix and single-token mutation of corpus inputs is fed to the preprocessor, SQF parser and config parser (directly and through compile/preprocess__/configparse__); crash, sanitizer report, escaped exception, hang, silent failure or nondeterminism is a violation.',
                 note='corpus-relative; linear-time claim checked as CPU budget proportional to input length'),
     'C11': dict(level='exploration', ref='2/C11', tech='runtime monitoring on a deterministic virtual clock: deadline monitor, abort diagnostics, loop iteration counters, run histories on aged VMs',
@@ -56,14 +56,14 @@ CHECKS = {
     'C16': dict(level='exploration', ref='2/C16', tech='runtime monitoring: content tokens returned by file operators on generated sandbox trees vs a reference resolver, canary files outside roots',
                 text='Generated mappings/trees/requests: the file content returned must be the token of the expected physical file and never that of a canary outside all roots.',
                 note='relative-path meaning asserted only where the statement fixes it'),
-    'C17': dict(level='fault_enumeration', ref='2/C17', tech='fault enumeration (every truncation point, byte flips, size-field corruptions) of archives from an independent packer under ASan+UBSan, FS snapshot oracle; libFuzzer and memcheck in thorough',
+    'C17': dict(level='fault_enumeration', ref='2/C17', tech='fault enumeration (every truncation point, byte flips, size-field corruptions) of archives from an independent packer under ASan+UBSan, reference parser for damaged files, allocation monitor (sanitizer malloc hook), FS snapshot oracle, real CLI front end (vcli)',
                 text='Archives from an independent Python packer must read back exactly; every truncation/corruption must be rejected or expose intact entries only, with no crash, over-allocation or file-system modification.',
                 note='independent packer implements the documented PBO layout'),
     'C18': dict(level='exploration', ref='2/C18', tech='runtime monitoring: C API call histories vs a documented-return-code model, callback monitor, status and carry-over probes, virtual clock',
                 text='Histories of API calls on several instances are run against the real export layer; return codes, callback data, idle status and carry-over must match the documented contract.',
                 note='input classes known by construction'),
     'C19': dict(level='exploration', ref='2/C19', tech='runtime monitoring: exhaustive short action sequences vs a reference state machine with instruction-count hooks; ThreadSanitizer + executor-overlap counter + failpoint delays for controller/executor interleavings',
-                text='All action sequences up to a bound from each start state are compared with a relational reference machine; concurrent controller/executor runs are observed by TSan, an overlap counter and a liveness probe.',
+                text='All action sequences up to a bound from six base states (plus long random walks) are judged against the state machine and the instruction trace of an uninterrupted run; two-thread episodes (controller plans against an executing or parked executor, yields at failpoints) are observed by TSan, guard-occupancy and stop-latency counters and a liveness probe.',
                 note='TSan sees only interleavings that happened'),
     'C20': dict(level='exploration', ref='2/C20', tech='runtime monitoring: byte-wise log comparison of P alone / after Q / beside Q (ThreadSanitizer build for the concurrent setting)',
                 text='Logs of P in a fresh VM must be identical alone, after Q in the same process, and beside Q on another thread; TSan must report no race between instances.',
@@ -100,7 +100,7 @@ def main():
     hook_commits = [l.split(' ', 1)[0] for l in commits if not l.split(' ', 1)[1].startswith('fix:')]
     man = {
         'version': 1,
-        'setup_cmd': './build.sh asan && ./build.sh tsan',
+        'setup_cmd': './build.sh asan && ./build.sh asan vcli && ./build.sh tsan',
         'hooks': {
             'guard': 'SQFVM_RUNTIME_VERIF',
             'enable': 'harness/CMakeLists.txt compiles /repo/src/** (minus src/cli, src/sqc, src/unused) with -DSQFVM_RUNTIME_VERIF into the vh harness (flavours asan, tsan under .build/)',
